@@ -694,13 +694,15 @@ func (t *State) Walk(blockid []byte, ledgerPrune bool) error {
 		return fmt.Errorf("walk todo block fail")
 	}
 	xTimer.Mark("walk_todo_block")
-	vhook.
+	{
+		vhArg0 :=
 
-		// 异步回放被回滚未确认交易
-		Go(func() {
-
-			t.recoverUnconfirmedTx(undoList)
+			// 异步回放被回滚未确认交易
+			undoList
+		vhook.Go(func() {
+			t.recoverUnconfirmedTx(vhArg0)
 		})
+	}
 
 	t.log.Info("utxo walk finish", "dest_block", hex.EncodeToString(blockid),
 		"latest_blockid", hex.EncodeToString(t.latestBlockid), "costs", xTimer.Print())
